@@ -121,12 +121,16 @@ def _grid(key):
     H = H.reshape(*(D + 1,) * dim, n)
     G = np.array([np.asarray(el.gradient(p), float) for p in grid]).reshape(*(D + 1,) * dim, n, dim)
     Hs = None
+    hshape = None
     if hasattr(el, "hessian"):
         try:
-            Hs = np.array([np.asarray(el.hessian(p), float) for p in grid]).reshape(*(D + 1,) * dim, n, dim, dim)
+            h0 = np.asarray(el.hessian(grid[0]), float)
+            hshape = tuple(h0.shape)
+            if hshape == (n, dim, dim):  # one (dim, dim) block per shape function; anything else is reported by the "shapes" item
+                Hs = np.array([np.asarray(el.hessian(p), float) for p in grid]).reshape(*(D + 1,) * dim, n, dim, dim)
         except NotImplementedError:
             Hs = None
-    return dict(x=x, Dm=Dm, grid=grid, H=H, G=G, Hs=Hs, D=D, dim=dim, n=n)
+    return dict(x=x, Dm=Dm, grid=grid, H=H, G=G, Hs=Hs, D=D, dim=dim, n=n, hshape=hshape)
 
 
 def grid(ax):
@@ -206,6 +210,9 @@ def ident_check(ax, case, rec):
         if g["Hs"] is not None:
             rec.close("sum-d2h=0", np.abs(g["Hs"][..., :nn, :, :].sum(-3)).max(), 1e-10)
     elif kind == "shapes":
+        if g["hshape"] is not None:
+            # the second derivatives: one block per shape function, as the gradient has one row per shape function
+            rec.require("hessian-shape", g["hshape"] == (n, dim, dim) and g["G"].shape[-2:] == (n, dim), [g["hshape"], (n, dim, dim)])
         if order == 0:
             return  # constant elements keep the geometry points of the cell, one function
         P = np.asarray(el.points)
